@@ -1,5 +1,6 @@
 (* C13: outcomes do not depend on whether collateral is native or cw20.  Statements only.
-   Proved so far (the full two-world simulation is refuted for reversals, see known_findings):
+   Proved so far (the full two-world simulation was refuted for reversals until fix 4c6978e, and is still
+   refuted when a native payout needs an insurance-fund draw, see known_findings):
    the single builder that depends on the collateral kind, and for the open/increase path that a
    native call is accepted only with exactly the amount a cw20 deployment pulls. *)
 From MP.Model Require Import Prelude U128 SInt Feed Vamm VammOps Token World Engine Runtime.
@@ -28,10 +29,11 @@ Theorem C13_increase_native_needs_cw20_pull_partial : forall w i o w' subs swap 
 Proof. exact increase_native_exact_funds. Qed.
 Print Assumptions C13_increase_native_needs_cw20_pull_partial.
 
-(* KNOWN FINDING (reverse_required_funds), as a refutation on the model: in twin deployments (same parameters,
-   same history, cw20 / native) a reversing OpenPosition that needs fresh margin succeeds on cw20, pulling
-   1176817 from the trader; the native call with exactly that amount attached is refused; the amount the
-   native engine does accept is 6058939 - the whole new margin, without offsetting the released equity. *)
+(* FIXED FINDING (reverse_required_funds, fix 4c6978e in /repo): before the fix the native engine demanded the whole
+   margin of the re-opened position (6058939 in this scenario) instead of that margin net of the equity the
+   old position releases.  The twin scenarios that were the refutation witness now agree: the cw20 deployment
+   pulls 1176817 from the trader; the native call with exactly that amount attached succeeds and costs the
+   trader exactly that; the old amount is refused as excessive. *)
 Definition c13_cw20_reversal : option Z :=
   match scenario with
   | Ok w => match exec_op (-1) w (OEngine 21 (EOpenPosition 11 Sell 11000000 2000000 0) 0) with
@@ -44,6 +46,6 @@ Definition c13_native_reversal (funds : Z) : option Z :=
             | Ok w' => Some (bal (w_tok w) 21 - bal (w_tok w') 21) | Err _ => None end
   | Err _ => None
   end.
-Example C13_refuted_reversal_required_funds :
-  c13_cw20_reversal = Some 1176817 /\ c13_native_reversal 1176817 = None /\ c13_native_reversal 6058939 = Some 6058939.
+Example C13_reversal_twins_agree_example :
+  c13_cw20_reversal = Some 1176817 /\ c13_native_reversal 1176817 = Some 1176817 /\ c13_native_reversal 6058939 = None.
 Proof. repeat split; vm_compute; reflexivity. Qed.
